@@ -35,7 +35,8 @@ def vectors(rng, metric, dim, n):
     if metric in ("hellinger",):
         base = np.abs(base) + np.float32(0.05)
     if metric == "jaccard":
-        base = (rs.rand(dim) < 0.5).astype(np.float32)
+        # jaccard counts NON-ZERO coordinates: signed and non-unit values are in its domain
+        base = ((rs.rand(dim) < 0.5) * rs.choice([1.0, -1.0, 2.5], size=dim)).astype(np.float32)
     out.append(base.copy())                              # a point
     out.append(base.copy())                              # identical
     out.append((base * np.float32(2.0)).astype(np.float32))  # positive multiple
@@ -52,7 +53,7 @@ def vectors(rng, metric, dim, n):
             v = np.abs(v)
             v[rs.rand(dim) < 0.3] = 0
         if metric == "jaccard":
-            v = (rs.rand(dim) < rs.choice([0.2, 0.5, 0.8])).astype(np.float32)
+            v = ((rs.rand(dim) < rs.choice([0.2, 0.5, 0.8])) * rs.choice([1.0, -1.0, 2.5], size=dim)).astype(np.float32)
         out.append(v.astype(np.float32))
     return out
 
@@ -258,8 +259,8 @@ def index_readout(ctx, nbuilds):
     done = 0
     for b in range(nbuilds):
         rs = np.random.RandomState(rng.randrange(10 ** 6))
-        metric = ["euclidean", "cosine", "hellinger", "euclidean", "cosine", "correlation", "dot"][b % 7]
-        sparse = (b % 2 == 1) and metric in ("euclidean", "cosine", "hellinger")
+        metric = ["euclidean", "cosine", "hellinger", "l2", "cosine", "correlation", "dot"][b % 7]
+        sparse = (b % 2 == 1) and metric in ("euclidean", "cosine", "hellinger", "l2")
         X = rs.uniform(0.1, 3.0, size=(rng.choice([60, 150]), 6)).astype(np.float32)
         data = sps.csr_matrix(np.where(rs.uniform(size=X.shape) < 0.7, X, 0).astype(np.float32) + np.eye(X.shape[0], 6, dtype=np.float32)) if sparse else X
         ctx.crumb(dict(stream="index-readout", metric=metric, sparse=sparse, n=int(X.shape[0])))
